@@ -88,6 +88,9 @@ def oracle(ck):
         g = NZ.alpha_noise(fs, fmin, fmax, alpha, init_filter=False, seed=3)
         lo, hi = 1.5 * g.fmin, g.fmax / 1.5
         inp = dict(fs=fs, fmin=fmin, fmax=fmax, alpha=alpha)
+        # the shaped band covers the requested one up to the quantisation of the stage spacing (observed factor <= 1.25)
+        if not (g.fmax >= fmax / 1.5 and g.fmin <= 1.5 * fmin):
+            ck.violation("alpha=%g: the shaped band [%g, %g] does not cover the requested band [%g, %g] (%d stages)" % (alpha, g.fmin, g.fmax, fmin, fmax, len(g._a_coeffs)), inp, tag="band-coverage")
         if hi > lo * 1.2:
             f = np.geomspace(lo, hi, 200)
             dB = 10 * np.log10(analytic_density(g, f) * f ** alpha)
